@@ -362,6 +362,43 @@ impl<'a> Runner<'a> {
                 return;
             }
         }
+        // ---- late duplicates: the client may have asked twice (its request timer fired before the
+        // first answer arrived), so the honest complete answer to the first request (start 0)
+        // arrives a second time - now, after the finalisations moved the peers' vectors on. It is
+        // out of date, not a contradiction: nobody may be banned for it and nothing final changes.
+        if let Some(c) = self.client.as_mut() {
+            let final_before = c.storage.get_max_check_point_index() as usize;
+            for p in 0..n {
+                if !alive[p] || case.vectors[p].is_empty() {
+                    continue;
+                }
+                self.deliveries += 1;
+                let r = panics::catch(|| {
+                    let _ = send(c, &case.vectors[p], PeerIndex::new(p + 1), 1, case.vectors[p].len());
+                });
+                if let Err(pr) = r {
+                    self.report.violation(format!("abort/{}", pr.site()), pr.describe(), desc(json!({"step": "late duplicate"})));
+                    self.client = None;
+                    return;
+                }
+                for (bp, reason) in c.out.take_bans() {
+                    self.report.violation(
+                        "ban-on-late-duplicate-check-points".to_owned(),
+                        format!("peer {} banned for the second copy of its own (out-of-date) answer: {}", bp, reason),
+                        desc(json!({"step": "late duplicate", "final_index": final_before})),
+                    );
+                }
+            }
+            let final_after = c.storage.get_max_check_point_index() as usize;
+            let stored: Vec<packed::Byte32> = c.storage.get_check_points(0, 1000);
+            if final_after != final_before || stored[..stored_prev.len().min(stored.len())] != stored_prev[..stored_prev.len().min(stored.len())] {
+                self.report.violation(
+                    "final-check-points-rewritten-or-shrunk".to_owned(),
+                    format!("a late duplicate answer changed the final check points (index {} -> {})", final_before, final_after),
+                    desc(json!({"step": "late duplicate"})),
+                );
+            }
+        }
     }
 }
 
